@@ -2604,6 +2604,7 @@ func (db *DB) checkpointWithExecutor(ctx context.Context, mode string, exec *syn
 		barrierTx = nil
 	}
 
+	verifTrace(db, "pt.ckpt.bump")
 	if err = db.bumpLitestreamSeq(ctx); err != nil {
 		return false, fmt.Errorf("bump litestream seq: %w", err)
 	}
